@@ -209,12 +209,13 @@ impl Rem for &Number {
         let a = self.value;
         let b = rhs.value;
         let result = a % b;
-        let result =
-            if a != 0. && (b.is_sign_negative() != a.is_sign_negative()) {
-                if b.is_finite() { result + b } else { f64::NAN }
-            } else {
-                result
-            };
+        let result = if result == 0. {
+            0. // and not a negative zero
+        } else if b.is_sign_negative() != a.is_sign_negative() {
+            if b.is_finite() { result + b } else { f64::NAN }
+        } else {
+            result
+        };
         Number { value: result }
     }
 }
